@@ -284,13 +284,26 @@ def main(argv):
             results.append(_run_shard(PROPS[pid], s))
     else:
         ctx = mp.get_context("spawn")
-        with ProcessPoolExecutor(nj, mp_context=ctx, initializer=_worker_init) as ex:
-            futs = [ex.submit(_run_shard, PROPS[pid], s) for s in shards]
-            for f in as_completed(futs):
-                try:
-                    results.append(f.result())
-                except Exception:
-                    results.append({"harness_error": traceback.format_exc()})
+        pending = list(shards)
+        for attempt in range(3):
+            # a worker killed by a native crash (z3 abort, OOM) breaks the whole pool: shards whose result was lost are run
+            # again in a fresh pool (each shard is deterministic and self-contained), at most twice
+            lost = []
+            with ProcessPoolExecutor(min(nj, len(pending)), mp_context=ctx, initializer=_worker_init) as ex:
+                futs = {ex.submit(_run_shard, PROPS[pid], s): s for s in pending}
+                for f in as_completed(futs):
+                    try:
+                        results.append(f.result())
+                    except Exception:
+                        lost.append((futs[f], traceback.format_exc()))
+            if not lost:
+                break
+            if attempt == 2:
+                for s, tb in lost:
+                    results.append({"harness_error": tb, "shard": repr(s)[:300]})
+                break
+            print(f"note: {len(lost)} shard(s) lost to a crashed worker process, running them again (attempt {attempt + 2})")
+            pending = [s for s, _ in lost]
 
     counts = Counter()
     violations = []
